@@ -132,6 +132,25 @@ func enumTable(fn *ssa.Function, caseField, targetField string) (tab map[string]
 		if !ok || f != targetField {
 			continue
 		}
+		// a lookup table: field <- table[x.caseField] with table a package-level map literal that is never
+		// changed; a missing key yields the zero value (the default)
+		if lk, isLk := stripConvVal(st.Val).(*ssa.Lookup); isLk && !lk.CommaOk && strings.HasSuffix(pathOf(lk.Index), "."+caseField) {
+			if ld, isLd := lk.X.(*ssa.UnOp); isLd && ld.Op == token.MUL {
+				if g, isG := ld.X.(*ssa.Global); isG && theWorld != nil {
+					if entries, okT := globalMapLiteral(theWorld, g); okT {
+						for k, v := range entries {
+							tab[k] = v
+						}
+						if n, isN := lk.Type().(*types.Named); isN {
+							if z := zeroConstOf(n); z != "" {
+								deflt, hasDefault = z, true
+							}
+						}
+						continue
+					}
+				}
+			}
+		}
 		expand(st.Val, condsFor(st.Block()), 0)
 	}
 	for _, lf := range leaves {
@@ -1195,4 +1214,78 @@ func valueCases(v ssa.Value, at *ssa.BasicBlock) []valueCase {
 	}
 	expand(v, cs, 0)
 	return out
+}
+
+func stripConvVal(v ssa.Value) ssa.Value {
+	for {
+		switch x := v.(type) {
+		case *ssa.ChangeType:
+			v = x.X
+		case *ssa.Convert:
+			v = x.X
+		default:
+			return v
+		}
+	}
+}
+
+// globalMapLiteral: g is a package-level map initialised by a literal with constant keys and values and
+// never written afterwards; returns the table with constants named.
+func globalMapLiteral(w *World, g *ssa.Global) (map[string]string, bool) {
+	init := g.Pkg.Func("init")
+	if init == nil {
+		return nil, false
+	}
+	var mk *ssa.MakeMap
+	stores := 0
+	eachInstr(init, func(in ssa.Instruction) {
+		if st, ok := in.(*ssa.Store); ok && st.Addr == ssa.Value(g) {
+			stores++
+			mk, _ = st.Val.(*ssa.MakeMap)
+		}
+	})
+	if stores != 1 || mk == nil {
+		return nil, false
+	}
+	out := map[string]string{}
+	for _, ref := range referrers(mk) {
+		switch x := ref.(type) {
+		case *ssa.MapUpdate:
+			k, okK := x.Key.(*ssa.Const)
+			v, okV := x.Value.(*ssa.Const)
+			if !okK || !okV {
+				return nil, false
+			}
+			out[constName(k)] = constName(v)
+		case *ssa.Store, *ssa.DebugRef:
+		default:
+			return nil, false
+		}
+	}
+	// no other function stores into the map or replaces it
+	for _, fn := range w.ModuleFuncs() {
+		bad := false
+		eachInstr(fn, func(in ssa.Instruction) {
+			switch x := in.(type) {
+			case *ssa.Store:
+				if x.Addr == ssa.Value(g) {
+					bad = true
+				}
+			case *ssa.MapUpdate:
+				if ld, ok := x.Map.(*ssa.UnOp); ok && ld.X == ssa.Value(g) {
+					bad = true
+				}
+			case ssa.CallInstruction:
+				if isCall(x, "builtin delete", "builtin clear") {
+					if ld, ok := x.Common().Args[0].(*ssa.UnOp); ok && ld.X == ssa.Value(g) {
+						bad = true
+					}
+				}
+			}
+		})
+		if bad {
+			return nil, false
+		}
+	}
+	return out, len(out) > 0
 }
